@@ -28,8 +28,28 @@ OFFSETS = [(1.0, 2.0, 3.0), (-150.0, 80.5, 12.25), (1e3, -2e4, 5e2), (1e6, 1e6, 
 ANGLES = [0.0, 33.0, 90.0, -120.0, 180.0, 359.0]
 
 
+ELL = None      # (a, b) of another ellipsoid handed to every function that takes one, or None for the default
+
+
 def apply(edge, pt, org, ang):
     la0, lo0, h0 = org
+    if ELL is not None:
+        a_, b_ = ELL
+        if edge == "geodetic2ecef":
+            return FR.geodetic2ecef(pt[0], pt[1], pt[2], a_, b_)
+        if edge in ("ecef2geodetic", "ecef2lla"):
+            return getattr(FR, edge)(pt[0], pt[1], pt[2], a_, b_)
+        if edge == "ecef2enu":
+            return FR.ecef2enu(pt[0], pt[1], pt[2], la0, lo0, h0, a_, b_)
+        if edge == "ecef2enuv":
+            x0, y0, z0 = FR.geodetic2ecef(la0, lo0, h0, a_, b_)
+            return FR.ecef2enuv(pt[0], pt[1], pt[2], x0, y0, z0, la0, lo0)
+        if edge == "enu2ecef":
+            return FR.enu2ecef(pt[0], pt[1], pt[2], la0, lo0, h0, a_, b_)
+        if edge == "geodetic2enu":
+            return FR.geodetic2enu(pt[0], pt[1], pt[2], la0, lo0, h0, a_, b_)
+        if edge == "uvw+origin":
+            return np.asarray(FR.geodetic2ecef(la0, lo0, h0, a_, b_)) + np.asarray(pt)
     if edge == "geodetic2ecef":
         return FR.geodetic2ecef(pt[0], pt[1], pt[2])
     if edge in ("ecef2geodetic", "ecef2lla"):
@@ -87,13 +107,15 @@ def starts(frame, k):
         pts = []
         for i in range(8):
             la, lo, h = LATS[(k + i) % len(LATS)], LONS[(k + 2 * i) % len(LONS)], HS[(k + i) % len(HS)]
-            pts.append(tuple(FR.geodetic2ecef(la, lo, h)))
+            pts.append(tuple(FR.geodetic2ecef(la, lo, h, *ELL) if ELL is not None else FR.geodetic2ecef(la, lo, h)))
         return pts
     return [OFFSETS[(k + i) % len(OFFSETS)] for i in range(7)]
 
 
 def replay_paths(args):
-    paths, k0 = args
+    global ELL
+    paths, k0 = args[0], args[1]
+    ELL = args[2] if len(args) > 2 else None
     t = Tally()
     for pi, path in enumerate(paths):
         frame = START_FRAME[path[0]]
@@ -208,7 +230,7 @@ def exact_cases(recs):
 def run(chk):
     quick = chk.tier == "quick"
     chk.rule = ("identity paths (<= 4 edges) enumerated by TLC x start points (GEO: 12 latitudes incl. +-90, +-89.9999, +-1e-9, 0; 7 longitudes "
-                "incl. +-180; heights -10 km..1000 km; ENU offsets to 1e6 m) x 7 origins x 6 DCA angles; exact ECEF->ENU cases at Pythagorean "
+                "incl. +-180; heights -10 km..1000 km; ENU offsets to 1e6 m) x 7 origins x 6 DCA angles, on the default ellipsoid and with other semi-axes handed to every function that takes them; exact ECEF->ENU cases at Pythagorean "
                 "origins x 3 scalings; distinct = distinct (path, start, origin) / exact case; none trivial")
     chk.assume("GEO round trips: latitude 1e-6 deg, longitude 1e-9 deg (mod 360, ignored within 1e-4 deg of a pole), height 1e-2 m (the "
                "documented fixed-point threshold of ecef2geodetic is 1e-8 rad); Cartesian round trips 1e-9 relative (0.1 m through GEO)")
@@ -220,6 +242,9 @@ def run(chk):
     exact = [r for r in res.out_records if r["kind"] == "exact"]
     reps = 1 if quick else 12
     jobs = [(paths[i::16], k) for i in range(16) for k in range(reps)]
+    # the same paths on other ellipsoids, handed consistently to every function that takes the semi-axes (Clarke 1866, a sphere)
+    jobs += [(paths[i::16], k + 3, ell) for i in range(16) for k in range(1 if quick else 4)
+             for ell in ((6378206.4, 6356583.8),) + (() if quick else ((6371000.0, 6371000.0), (6377397.155, 6356078.963)))]
     import multiprocessing as mp
     with mp.get_context("fork").Pool(16) as pool:
         core.merge(chk, pool.map(replay_paths, jobs))
